@@ -1,6 +1,7 @@
 package props
 
 import (
+	"go/token"
 	"fmt"
 	"go/constant"
 	"strings"
@@ -85,7 +86,8 @@ func runC13(p *core.Prog, r *core.Report) {
 	}
 
 	// ---- R3
-	cl, why := findCharLoop(san)
+	sanView := p.Inl(san) // a scanning predicate in a helper is seen in place
+	cl, why := findCharLoop(sanView)
 	if cl == nil {
 		r.Fail("C13-R3", "quoting predicate", p.FuncPos(san), why)
 		return
@@ -150,28 +152,52 @@ func runC13(p *core.Prog, r *core.Report) {
 		}
 	}
 	r.Check(len(badR) == 0, "C13-R3", "quoting decision over every Unicode scalar value and invalid bytes", p.FuncPos(san), fmt.Sprintf("%d scalar values evaluated, %d left bare (none is Unicode whitespace); invalid UTF-8 forces quoting", nR, bareR), strings.Join(badR, "; "))
-	// the empty string is quoted
+	// the empty string is quoted: the edge on which the string is known to be empty leads, without further branching, to
+	// an explicit `""` or to strconv.AppendQuote of the string (which renders "" for it)
 	okEmpty := false
-	if len(san.Blocks) > 0 {
-		if iff, ok := san.Blocks[0].Instrs[len(san.Blocks[0].Instrs)-1].(*ssa.If); ok {
-			if b, ok := iff.Cond.(*ssa.BinOp); ok {
-				if c, ok := b.X.(*ssa.Call); ok && isBuiltin(c, "len") && c.Call.Args[0] == ssa.Value(cl.str) {
-					if k, isC := sx.ConstInt(b.Y); isC && k == 0 {
-						tb := san.Blocks[0].Succs[0]
-						for _, in := range tb.Instrs {
-							if ap, ok := in.(*ssa.Call); ok && isBuiltin(ap, "append") {
-								if bs, ok := constBytesOf(ap.Call.Args[1]); ok && string(bs) == `""` {
-									if _, isRet := tb.Instrs[len(tb.Instrs)-1].(*ssa.Return); isRet {
-										okEmpty = true
-									}
-								}
-							}
-						}
-					}
-				}
+	sx.Instrs(sanView, func(in ssa.Instruction) {
+		b, ok := in.(*ssa.BinOp)
+		if !ok || (b.Op != token.EQL && b.Op != token.NEQ) {
+			return
+		}
+		isEmptyTest := false
+		if c, ok := b.X.(*ssa.Call); ok && isBuiltin(c, "len") && c.Call.Args[0] == ssa.Value(cl.str) {
+			if k, isC := sx.ConstInt(b.Y); isC && k == 0 {
+				isEmptyTest = true
 			}
 		}
-	}
+		if b.X == ssa.Value(cl.str) {
+			if k, isC := sx.ConstString(b.Y); isC && k == "" {
+				isEmptyTest = true
+			}
+		}
+		if !isEmptyTest {
+			return
+		}
+		for e := range boolEdges(b, b.Op == token.EQL) {
+			blk := e.To()
+			for steps := 0; steps < 8 && blk != nil; steps++ {
+				for _, i2 := range blk.Instrs {
+					c, ok := i2.(*ssa.Call)
+					if !ok {
+						continue
+					}
+					if isBuiltin(c, "append") {
+						if bs, ok := constBytesOf(c.Call.Args[1]); ok && string(bs) == `""` {
+							okEmpty = true
+						}
+					}
+					if sx.CalleeName(c) == "strconv.AppendQuote" && c.Call.Args[1] == ssa.Value(cl.str) {
+						okEmpty = true
+					}
+				}
+				if len(blk.Succs) != 1 {
+					break
+				}
+				blk = blk.Succs[0]
+			}
+		}
+	})
 	r.Check(okEmpty, "C13-R3", "the empty string is written as \"\"", p.FuncPos(san), "len(s) == 0 → `\"\"`", "the empty string is not rendered as an explicit \"\" token: `key=` followed by a space would be ambiguous")
 
 	// ---- R4: source location (shared with C01-R5)
